@@ -50,7 +50,7 @@ class DbaSpec(netx.Spec):
     def check_state(self, world, event, report):
         if world.exception is not None:
             ev, et, msg, where = world.exception
-            report(f"C09|handler-raised|{et}|{where[-1]}", f"DBA {self.params} on {self.spec}: event {ev} raised {et}: {msg} at {where}")
+            report(f"C09|handler-raised|{et}|{netx.site(where)}", f"DBA {self.params} on {self.spec}: event {ev} raised {et}: {msg} at {where}")
             return
         fin = world.mon.get("fin", ())
         if fin:
